@@ -364,7 +364,9 @@ func (s *Scope) evalQuant(e *Expr) *Val {
 	}
 	n := s.child()
 	n.vars[e.Var] = v
+	c.inQuant++
 	body := n.evalBool(e.Args[0])
+	c.inQuant--
 	// type range in int mode
 	if c.intMode && ty != nil {
 		w, signed, _ := intInfo(ty)
